@@ -49,7 +49,7 @@ C13)
   build "$W/bin" ./cmd/$LC -overlay "$W/ov.json" || exit 3
   ;;
 C14)
-  instr $REPO/machine/filesys/dir.go=unix $REPO/machine/filesys/mem.go=sync,yield,copy
+  instr $REPO/machine/filesys/dir.go=unix,yield $REPO/machine/filesys/mem.go=sync,yield,copy
   build "$W/bin" ./cmd/$LC -overlay "$W/ov.json" || exit 3
   build "$W/free" ./cmd/$LC -race -tags free || exit 3
   export VERIF_FREE_BIN="$W/free"
